@@ -1,7 +1,7 @@
 #!/bin/bash
 # Run one or more checks (quick tier) against a confirmed seeded change and record the verdicts in
 # /verif/seeded/<id>/meta.json ("detected_by").   usage: tools/seed_detect.sh <id> [check ...]
-ID="$1"; shift; CHECKS="${*:-$ID}"; D="/verif/seeded/$ID"
+ID="$1"; shift; CHECKS="${*:-${ID%%-*}}"; D="/verif/seeded/$ID"
 [ -f "$D/patch.diff" ] || { echo "no $D/patch.diff"; exit 2; }
 for C in $CHECKS; do
   OUT=$(/verif/tools/mutant.sh seedrun "$D/patch.diff" "$C" quick 2>&1); RC=$?
@@ -12,7 +12,7 @@ import json, sys
 p, c, rc, summ = sys.argv[1:5]
 m = json.load(open(p))
 d = m.get('detected_by') or {}
-d[c] = {"exit": int(rc), "detected": int(rc) == 1, "summary": summ, "cmd": f"tools/mutant.sh seedrun seeded/{m['property']}/patch.diff {c} quick"}
+d[c] = {"exit": int(rc), "detected": int(rc) == 1, "summary": summ, "cmd": f"tools/mutant.sh seedrun {p.rsplit('/',1)[0].replace('/verif/','')}/patch.diff {c} quick"}
 m['detected_by'] = d
 json.dump(m, open(p, 'w'), indent=1)
 PY
